@@ -59,6 +59,8 @@ func registerNatives(e *Engine) {
 	r("strconv.Quote", strconv.Quote)
 	r("strconv.CanBackquote", strconv.CanBackquote)
 	r("strconv.FormatInt", strconv.FormatInt)
+	r("strconv.FormatUint", strconv.FormatUint)
+	r("strconv.FormatFloat", strconv.FormatFloat)
 	r("strconv.FormatBool", strconv.FormatBool)
 	r("path.Base", path.Base)
 	r("path.Ext", path.Ext)
